@@ -66,6 +66,10 @@ def tables(ex):
     for i, n in enumerate(names):
         out.append(f"  {'if' if i == 0 else 'else if'} name = \"{n}\" then some {n}")
     out.append("  else none\n")
+    out.append("def symbolsOf (name : String) (p : Profile) : List Nat :=")
+    for i, n in enumerate(names):
+        out.append(f"  {'if' if i == 0 else 'else if'} name = \"{n}\" then (match p with | .debug => {n}_debug_symbols | .release => {n}_release_symbols)")
+    out.append("  else []\n")
     out.append("def allCodecs : List (Profile → Codec) := [" + ", ".join(names) + "]")
     flags = {c["name"]: c for c in ex["debug"]["codecs"]}
     out.append("def compCodecs : List (Profile → Codec) := [" + ", ".join(n for n in names if flags[n]["has_comp"]) + "]")
